@@ -66,7 +66,8 @@ def final_bytes(ins, base=0x10000):
 
 
 def prepare(desc):
-    """-> (text, bytes) or raises Discard."""
+    """-> (instance, text, bytes) or raises Discard.  The text is ppci's printed form with a
+    separator restored after a glued mnemonic (that printing defect is C09-KF1's subject)."""
     try:
         ins = G.build(desc)
     except G.BuildError as e:
@@ -75,51 +76,318 @@ def prepare(desc):
     if G.is_data_pseudo(cls) or cls.__module__.endswith("data_instructions"):
         raise Discard("data directive")
     try:
-        text = str(ins)
+        text = G.render(ins, unglue=True) if G.any_glued(ins) else str(ins)
         data, _ = final_bytes(ins)
     except Exception:
         raise Discard("not encodable")
     if not data:
         raise Discard("empty encoding")
-    return text, data
+    return ins, text, data
 
 
 def judge(target, text, data, decoded):
-    """-> ("ok"|"unverifiable"|"fail", detail)"""
+    """-> ("ok"|"unverifiable"|"fail", detail message, structured diff)"""
     if decoded is None:
-        return "unverifiable", "undecodable"
+        return "unverifiable", "undecodable", None
     a = L.norm_ppci(target, text)
     if a is None:
-        return "unverifiable", "ppci text not interpreted"
+        return "unverifiable", "ppci text not interpreted", None
     b = L.norm_ref(target, decoded)
     if b is None:
-        return "unverifiable", "reference text not interpreted"
+        return "unverifiable", "reference text not interpreted", None
     diff = L.compare(a, b)
     if diff is None:
-        return "ok", None
-    if diff == "shape":
-        return "unverifiable", "operand shape"
-    return "fail", "%s %r encodes to %s, which the reference decodes as %r: %s" % (
-        target,
-        text,
-        data.hex(),
-        "; ".join(t.replace("\t", " ") for t, _ in decoded),
+        return "ok", None, None
+    if diff[0] == "shape":
+        return "unverifiable", "operand shape", None
+    return (
+        "fail",
+        "%s %r encodes to %s, which the reference decodes as %r: %s"
+        % (target, text, data.hex(), "; ".join(t.replace("\t", " ") for t, _ in decoded), L.describe_diff(diff)),
         diff,
     )
 
 
 def evaluate(desc):
-    text, data = prepare(desc)
+    ins, text, data = prepare(desc)
     dec = L.reference_decode(desc["target"], [data])[0]
     return judge(desc["target"], text, data, dec)
 
 
 def replay(case):
-    st, detail = evaluate(case)
+    st, detail, diff = evaluate(case)
     return detail if st == "fail" else None
 
 
+# ---------------------------------------------------------------------------
+# known findings
+
+KF_IMM_ALIAS = "C08-KF1"  # printed immediate is an alias of the decoded one (C10 root cause)
+KF_RVC_REG = "C08-KF2"  # rvc 3-bit register fields keep the low bits of any register
+KF_X86_HIGH8 = "C08-KF3"  # x86 ah/ch/dh/bh are always encoded with a REX prefix
+KF_MNEMONIC = "C08-KF4"  # copy-pasted mnemonics (C09-KF2's root cause): riscv Ble, thumb Asr
+KF_RVC_X0 = "C08-KF5"  # rvc operand x0 where the encoding means another instruction
+KF_RVC_BNEQZ = "C08-KF6"  # c.bneqz is not the architectural mnemonic c.bnez
+KF_RVF_CMP = "C08-KF7"  # rvf f.fgt.s / f.fge.s encode fle / flt
+KF_X86_SHL = "C08-KF8"  # x86 'shl r/m' (shift by one) encodes /5 = shr
+KF_X86_W32 = "C08-KF9"  # x86 32-bit not/neg classes set REX.W
+KF_X86_RELOC = "C08-KF10"  # x86 relocation offset of [label] ignores prefix bytes
+KF_THUMB_HALF = "C08-KF11"  # thumb ldrh/strh print the raw imm5 field / strh shifts twice
+KF_ARM_SHIFT0 = "C08-KF12"  # ARM 'lsr 0' / 'asr 0' encode imm5 = 0, which means a shift by 32
+KF_THUMB_SPNEG = "C08-KF13"  # thumb sp-relative ldr/str/add/sub: out-of-range operand is or-ed into the opcode
+
+_COPIED = {("riscv", "bge_ins#2"): "ble", ("arm:thumb", "lsr_ins#2"): "asr"}
+_X86_HIGH = {"ah": "spl", "ch": "bpl", "dh": "sil", "bh": "dil"}
+
+
+def _family(target):
+    return "riscv" if target.startswith("riscv") else target
+
+
+def _final(desc):
+    try:
+        return final_bytes(G.build(desc))[0]
+    except Exception:
+        return None
+
+
+def _int_leaf_paths(desc):
+    cls = G.class_by_id(desc["target"], desc["cls"])
+    return [p for p in G.int_paths(cls) if isinstance(G.get_at(desc["args"], p), int)]
+
+
+def _imm_alias(desc, data, p, d, widths=(0, 8, 16, 32, 64)):
+    """The decoded immediate d (or d - 2^w: normalised x86 values are reduced modulo the operand
+    width) is accepted by ppci in place of a printed operand and yields the identical bytes."""
+    for path in _int_leaf_paths(desc):
+        v = G.get_at(desc["args"], path)
+        for w in widths:
+            for cand in ((d,) if w == 0 else (d - (1 << w), d + (1 << w))):
+                if cand == v:
+                    continue
+                nd = dict(desc, args=G.set_at(desc["args"], path, cand))
+                if _final(nd) == data:
+                    return True
+    return False
+
+
+def _has_rex(data):
+    for byte in data[:4]:
+        if byte in (0x66, 0xF2, 0xF3):
+            continue
+        return 0x40 <= byte <= 0x4F
+    return False
+
+
+def _printed_ints(desc):
+    return [G.get_at(desc["args"], p) for p in _int_leaf_paths(desc)]
+
+
+def _truncated(printed, d):
+    """Model of silent truncation: the decoded value is a printed operand reduced to w bits
+    (as unsigned or sign-extended) and the printed operand does not fit w signed bits."""
+    d64 = d - (1 << 64) if d >= (1 << 63) else d
+    for p in printed:
+        for w in (8, 16, 32):
+            if -(1 << (w - 1)) <= p < (1 << (w - 1)):
+                continue
+            lo = p & ((1 << w) - 1)
+            se = lo - (1 << w) if lo >> (w - 1) else lo
+            if d in (lo, se) or d64 in (lo, se):
+                return True
+    return False
+
+
+def _has_ctor(args, names, value=None):
+    for a in args:
+        if isinstance(a, list) and a and a[0] == "c":
+            if a[1] in names and (value is None or value in a[2]):
+                return True
+            if _has_ctor(a[2], names, value):
+                return True
+    return False
+
+
+def _reg_paths(cls, args, prefix=()):
+    for i, (fa, a) in enumerate(zip(cls.syntax.formal_arguments, args)):
+        k = G.kind_of(fa._cls)
+        if k == "reg":
+            yield prefix + (i,), fa._cls
+        elif k == "ctor":
+            for sub in G.ctor_options(fa._cls):
+                if sub.__name__ == a[1]:
+                    for r in _reg_paths(sub, a[2], prefix + (i, sub.__name__)):
+                        yield r
+
+
+def _reg_alias(desc, data, printed, decoded, names):
+    """Substituting the decoded register for a printed one gives the identical bytes."""
+    cls = G.class_by_id(desc["target"], desc["cls"])
+    for path, rcls in _reg_paths(cls, desc["args"]):
+        cur = G.get_at(desc["args"], path)
+        if names(cur[1]) != printed:
+            continue
+        for rid in G.reg_ids(rcls)[0]:
+            if names(rid) == decoded:
+                nd = dict(desc, args=G.set_at(desc["args"], path, ["r", rid]))
+                if _final(nd) == data:
+                    return True
+    return False
+
+
+def _canon_reg(target):
+    fam = L.normaliser_family(target)
+    table = {"riscv": L._RV_REGS, "arm": L._ARM_REGS, "arm:thumb": L._ARM_REGS}.get(fam)
+    if fam == "x86_64":
+        return lambda rid: rid.split("#")[0].lower()
+    return lambda rid: table.get(rid.split("#")[0].lower())
+
+
 def classify(case, msg):
+    try:
+        ins, text, data = prepare(case)
+        dec = L.reference_decode(case["target"], [data])[0]
+    except Discard:
+        return None
+    st, detail, diff = judge(case["target"], text, data, dec)
+    if st != "fail" or detail != msg:
+        return None
+    return explain(case, text, data, diff)
+
+
+def explain(desc, text, data, diff):
+    target = desc["target"]
+    fam = _family(target)
+    cid = desc["cls"]
+    if diff[0] == "operand":
+        x, y = diff[3], diff[4]
+        if x[0] == "i" and y[0] == "i":
+            if fam == "arm:thumb" and cid in ("Ldrh", "Strh"):
+                # model: the reference shows the byte offset, ppci prints the raw imm5 field
+                # (ldrh: field = operand, offset = 2*field; strh: field = 2*operand, offset = 4*operand)
+                scale = 2 if cid == "Ldrh" else 4
+                if y[1] == ((x[1] * scale // 2) % 32) * 2:
+                    return KF_THUMB_HALF
+            if fam == "arm" and (x[1], y[1]) == (0, 32) and _has_ctor(desc["args"], ("ShiftLsr", "ShiftAsr"), 0):
+                return KF_ARM_SHIFT0
+            if _imm_alias(desc, data, x[1], y[1]) or _truncated(_printed_ints(desc), y[1]):
+                return KF_IMM_ALIAS
+        if x[0] == "m" and y[0] == "m" and x[1:4] == y[1:4]:
+            if _imm_alias(desc, data, x[4], y[4], widths=(0, 64)) or _truncated(_printed_ints(desc), y[4]):
+                return KF_IMM_ALIAS
+        if x[0] == "r" and y[0] == "r":
+            if target == "riscv:rvc" and _reg_alias(desc, data, x[1], y[1], _canon_reg(target)):
+                return KF_RVC_REG
+            if fam == "x86_64" and _X86_HIGH.get(x[1]) == y[1] and _has_rex(data):
+                # model (Intel SDM vol.2 2.2.1.2): with any REX prefix register numbers 4..7 of
+                # an 8-bit operand mean spl/bpl/sil/dil instead of ah/ch/dh/bh
+                return KF_X86_HIGH8
+            if fam == "x86_64" and cid in ("Not#2", "Neg#2", "Shr#2", "Shl#2") and x[1] in L._X86_R32 and y[1] == L._X86_R64[L._X86_R32.index(x[1])]:
+                return KF_X86_W32
+            if _COPIED.get((fam, cid)) == "ble":
+                # model: Ble(rn, rm) encodes bge rm, rn -- the printed mnemonic should be ble
+                a = L.norm_ppci(target, "ble" + text[3:])
+                b = L.norm_ppci(target, text)
+                if a and b and a[0][0] == "bge" and a[0][1][:2] == (b[0][1][1], b[0][1][0]):
+                    return KF_MNEMONIC
+    if fam == "arm:thumb" and cid in ("Ldr1", "Str1", "AddSp", "SubSp") and diff[0] in ("mnemonic", "operand", "count"):
+        v = [a for a in desc["args"] if isinstance(a, int) and not isinstance(a, bool)]
+        if v and not (0 <= v[-1] <= (1020 if cid in ("Ldr1", "Str1") else 508)):
+            return KF_THUMB_SPNEG
+    if diff[0] == "mnemonic":
+        pm, dm = diff[2], diff[3]
+        if _COPIED.get((fam, cid)) == dm and pm == {"asr": "lsr"}.get(dm):
+            return KF_MNEMONIC
+        if target == "riscv:rvc":
+            x0 = "x0" in [a[1] for a in desc["args"] if isinstance(a, list) and a and a[0] == "r"]
+            if x0 and (pm, dm) in (("c.mv", "c.jr"), ("c.jalr", "c.ebreak"), ("c.slli", "c.slli64"), ("c.srli", "c.srli64"), ("c.srai", "c.srai64")):
+                return KF_RVC_X0
+            if (pm, dm) == ("c.bneqz", "c.bnez"):
+                return KF_RVC_BNEQZ
+            if (pm, dm) in (("c.slli", "c.slli64"), ("c.srli", "c.srli64"), ("c.srai", "c.srai64")):
+                # shift amount 0 (reached through a multiple of 32/64): immediate alias of 0
+                return KF_IMM_ALIAS if any(isinstance(a, int) and a % 32 == 0 for a in desc["args"]) else None
+        if fam == "riscv" and (pm, dm) in (("flt.s", "fle.s"), ("fle.s", "flt.s")) and cid in ("fgt_ins", "fge_ins"):
+            return KF_RVF_CMP
+        if fam == "x86_64" and (pm, dm) == ("shl", "shr") and cid.split("#")[0] == "Shl":
+            return KF_X86_SHL
+    if diff[0] == "count" and fam == "x86_64":
+        # [label] operand under an instruction with a mandatory prefix: the relocation is applied
+        # one byte early and destroys the SIB byte
+        if "RmAbsLabel" in repr(desc["args"]) and data[:1] in (b"\xf2", b"\xf3", b"\x66"):
+            return KF_X86_RELOC
+    return None
+
+
+# ---------------------------------------------------------------------------
+# exclusions by construction
+
+
+def _reg_filter_for(target, cid):
+    """Keep register operands out of the known alias shapes (KF2: rvc 3-bit fields -> x8..x15
+    only, found by probing which registers encode alike; KF3: x86 ah/ch/dh/bh)."""
+    cache = {}
+
+    def filt(path, rcls, ids):
+        key = (path, rcls)
+        if key in cache:
+            return cache[key]
+        out = list(ids)
+        if target == "x86_64" and rcls.__name__ == "Register8":
+            out = [i for i in ids if i not in _X86_HIGH]
+        elif target == "riscv:rvc":
+            base = G.base_desc(target, cid, ())
+            try:
+                ok = base is not None and G.get_at(base["args"], path) is not None
+            except Exception:
+                ok = False
+            if ok:
+                groups = {}
+                for rid in ids:
+                    e = _final(dict(base, args=G.set_at(base["args"], path, ["r", rid])))
+                    groups.setdefault(e, []).append(rid)
+                if any(len(g) > 1 for e, g in groups.items() if e is not None):
+                    out = [i for i in ids if i in ("x8", "x9", "x10", "x11", "x12", "x13", "x14", "x15")]
+        cache[key] = out
+        return out
+
+    return filt
+
+
+def _int_filter_for(target, cid):
+    fam = _family(target)
+
+    def filt(path):
+        if fam == "arm" and len(path) >= 2 and path[-2] in ("ShiftLsr", "ShiftAsr"):
+            return lambda v: v != 0  # KF12
+        if fam == "arm:thumb" and cid in ("Ldr1", "Str1", "AddSp", "SubSp"):
+            return lambda v: 0 <= v <= (1020 if cid in ("Ldr1", "Str1") else 508)  # KF13
+        return None
+
+    return filt
+
+
+def class_exclusion(target, cid):
+    fam = _family(target)
+    if (fam, cid) in _COPIED:
+        try:
+            cls = G.class_by_id(target, cid)
+            if G.mnemonic(cls) != _COPIED[(fam, cid)]:
+                return KF_MNEMONIC
+        except G.BuildError:
+            pass
+    if target == "riscv:rvc" and cid == "CBnez" and G.syntax_literals(G.class_by_id(target, cid))[:3] == ("c", ".", "bneqz"):
+        return KF_RVC_BNEQZ
+    cls = G.class_by_id(target, cid)
+    if fam == "riscv" and (cid, getattr(cls, "func3", None)) in (("fgt_ins", 0), ("fge_ins", 1)):
+        return KF_RVF_CMP
+    if fam == "x86_64" and cid.split("#")[0] == "Shl" and getattr(cls, "reg", None) == 5:
+        return KF_X86_SHL
+    if fam == "x86_64" and cid in ("Not#2", "Neg#2", "Shr#2", "Shl#2"):
+        if "RmBase" in [c.__name__ for c in cls.__mro__]:
+            return KF_X86_W32
+    if fam == "arm:thumb" and cid in ("Ldrh", "Strh"):
+        return KF_THUMB_HALF
     return None
 
 
@@ -140,25 +408,33 @@ def _worker(arg):
             stats.discard("unsupported operand kind")
             continue
 
+        kf = class_exclusion(target, cid)
+        if kf:
+            stats.excluded[kf] += 1
+            continue
+
         def prop(args, cid=cid):
             desc = {"target": target, "cls": cid, "args": args}
-            text, data = prepare(desc)
+            ins, text, data = prepare(desc)
             key = G.key_of(desc)
             if key not in seen:
                 seen.add(key)
                 cases.append((desc, text, data))
             return None
 
-        hyp_search(G.args_strategy(target, cid, canonical=True), prop, n, subseed(seed, cid), stats)
+        strat = G.args_strategy(
+            target, cid, canonical=True, reg_filter=_reg_filter_for(target, cid), int_filter=_int_filter_for(target, cid)
+        )
+        hyp_search(strat, prop, n, subseed(seed, cid), stats)
     decoded = L.reference_decode(target, [c[2] for c in cases]) if cases else []
     per_class = collections.Counter()
     for (desc, text, data), dec in zip(cases, decoded):
-        st, detail = judge(target, text, data, dec)
+        st, detail, diff = judge(target, text, data, dec)
         nt = G.has_operands(desc)
         stats.case(G.key_of(desc), nt and st != "unverifiable", {"case": desc, "text": text, "bytes": data.hex()} if st == "ok" and nt else None,
                    classes=("%s/%s" % (target, st if st != "unverifiable" else "unverifiable:" + detail),))
         if st == "fail":
-            kf = classify(desc, detail)
+            kf = explain(desc, text, data, diff)
             if kf:
                 stats.known[kf] += 1
             elif per_class[desc["cls"]] < 2:
